@@ -132,9 +132,11 @@ func (e *Engine) execInstr(f *frame, ins ssa.Instruction) {
 				rv.Tup = append(rv.Tup, v)
 			}
 		}
-		f.rets = append(f.rets, retRec{pc: e.pc, val: rv, st: f.st})
+		f.rets = append(f.rets, retRec{pc: f.local, val: rv, st: f.st})
 	case *ssa.Panic:
 		e.oblige("assert", "explicit panic unreachable", X.False, x.Pos())
+		f.panics = true
+		f.local = X.False
 		e.pc = X.False
 	case *ssa.TypeAssert:
 		f.vals[x] = e.typeAssert(f, x)
